@@ -52,7 +52,8 @@ FUNCTIONS = [
     'pymap.concurrent:FileLock.write_lock', 'pymap.concurrent:FileLock.read_lock',
 ]
 ASSUMPTIONS = ['histories of 1 (quick) / 2 (thorough) operations; one kill at most',
-               'rename and exclusive create are atomic; a temporary file becomes visible when it is closed',
+               'rename and exclusive create are atomic; a file opened for writing exists (empty) at once and receives what '
+               'was written when it is closed, wherever a rename has moved it meanwhile (the write buffer dies with the process)',
                'the message files are an object store: add / move / remove are single atomic steps']
 STUBS = ['in-memory file system with kill points and two devices', 'stub Maildir object store', 'clock = 0, sleep suspends']
 OUTSIDE = ['the inside of mailbox.Maildir.add and of flag renames', 'CREATE / RENAME of folders (directories)',
@@ -119,6 +120,7 @@ def make_fs(crash_at, tmp_other_device):
 
         def named_temp(self, mode='w', delete=True, dir=None, **k):
             self.ntemp += 1
+            self.tick('create temporary file')
             return KWriter(self, (dir or '/tmp') + '/t%d' % self.ntemp)
 
         def open(self, p, mode='r', *a, **k):
